@@ -26,7 +26,7 @@ fn fmt_stub2(_a: core::fmt::Arguments<'_>) -> String {
 #[kani::stub(std::fmt::format, fmt_stub2)]
 fn c10_cow_sequence() {
     let cb = 16u32;
-    let info = mk_info(cb, 4, 1u64 << 40, 9, Some((9, 1024)), Some((9, 1024)), false, false, true);
+    let info = mk_info(cb, 4, 1u64 << 40, 9, Some((9, 1024)), Some((10, 2048)), false, false, true);
     let mut env = KEnv::new(info);
     let cs = 1u64 << cb;
     // what the caller saw when it decided to COW
